@@ -171,14 +171,17 @@ def check(tier, seed, replay=None):
         # mutation histories from the TLA+ machine
         base = os.path.join(d, "base.ndjson")
         core.write_ndjson(base, [tokens_of(p) for p in progs[:40]])
-        nsim = 25 if tier == "quick" else 1500
+        nsim = 25 if tier == "quick" else 300
         ms, g, dd = core.gen_cases(SPEC_DIR, "Mutate.tla", "Mutate.cfg", "mutate", workers=1, env={"BASE": base},
                                    extra=["-simulate", f"num={nsim}", "-depth", "4", "-seed", str(seed)],
                                    cache_key=[nsim, seed, len(progs)])
         meta["Mutate"] = {"cases": len(ms), "simulated_behaviours": nsim}
         rnd = random.Random(seed)
-        if tier == "quick" and len(ms) > 2500:
-            ms = rnd.sample(ms, 2500)
+        # (every behaviour of the machine prints one case per step and base program: the thorough tier keeps a
+        # seeded sample of 60000 of the millions it generates - each case is a child process)
+        cap = 2500 if tier == "quick" else 60000
+        if len(ms) > cap:
+            ms = rnd.sample(ms, cap)
         for i, m in enumerate(ms):
             cases.append({"id": f"mut{seed}_{i}", "text": join(m["tokens"])[:4096], "kind": "mutant_" + m["last"]})
     limit = 12000
